@@ -714,6 +714,33 @@ def exhaustive_selection():
                     ops += [mk[x] for x in perm]
                     ops += ['call 0 1 %d 0' % argof[ch] for ch in cs]
                     segs.append(('xsel-B-%d%d-%d.%d-%s-%s' % (listing[0], listing[1], lo, hi, ''.join(perm), cs), ops))
+    # ---- C: an entry of two sequences whose two per-sequence costs are both non-zero and DIFFER (blocked / 2 / 1 in the
+    #         first-listed one, 1 in the second-listed one and the other way round): r = predecessor(s) in sequence 1 on f(0)
+    #         (one required, one optional, two optional), p = one optional predecessor in sequence 2 on f(0), optionally a
+    #         rival c in sequence 3 behind one optional step (cost 1, accepts f(1)), u = unsequenced competitor for f(2)
+    for kind1 in ('req', 'opt1', 'opt2'):
+        for listing in ((1, 2), (2, 1)):
+            for rival in (False, True):
+                if rival and kind1 == 'opt2':
+                    continue            # six slots
+                for ulate in (False, True):
+                    for cs in strings:
+                        ops = ['mock 0', 'seq 1', 'seq 2'] + (['seq 3'] if rival else [])
+                        slot = 1
+                        if kind1 == 'req':
+                            ops.append(expect_line(slot, 5, 0, p=((1, 0), (0, 0)), retv=100 * slot, lo=1, hi=1, q=(1, 0))); slot += 1
+                        else:
+                            for i in range(1 if kind1 == 'opt1' else 2):
+                                ops.append(expect_line(slot, 11, 0, p=((1, 0), (0, 0)), retv=100 * slot, q=(1, 0))); slot += 1
+                        ops.append(expect_line(slot, 11, 0, p=((1, 0), (0, 0)), retv=100 * slot, q=(2, 0))); slot += 1
+                        if rival:
+                            ops.append(expect_line(slot, 11, 0, p=((1, 0), (0, 0)), retv=100 * slot, q=(3, 0))); slot += 1
+                            ops.append(expect_line(slot, 5, 0, p=((1, 1), (0, 0)), retv=100 * slot, lo=1, hi=2, q=(3, 0))); slot += 1
+                        u = expect_line(6, 9, 0, p=((1, 2), (0, 0)), retv=600)
+                        e = expect_line(slot, 7, 0, p=((2, 0), (0, 0)), retv=100 * slot, lo=1, hi=2, q=listing)
+                        ops += [e, u] if ulate else [u, e]
+                        ops += ['call 0 1 %d 0' % argof[ch] for ch in cs]
+                        segs.append(('xsel-C-%s-%d%d-%d%d-%s' % (kind1, listing[0], listing[1], int(rival), int(ulate), cs), ops))
     return segs
 
 EXHAUSTIVE['C02'] = [exhaustive_selection]
